@@ -205,6 +205,8 @@ def build(ir, shape, mode, whole):
         text = base + "\n" + ext
         return build_ast_schema(doc(text), assume_valid_sdl=True), text
     if mode == "split_base_av":
+        if not ext:
+            return None, None  # nothing to extend with: the base alone is, by declaration, not validated
         # the base is declared valid by its builder; what extend_schema returns is a new schema that is not
         schema = build_ast_schema(doc(base), assume_valid=True)
         validate_schema(schema)
